@@ -148,10 +148,8 @@ func c10Body(sc *WF) Verdict {
 			return bad("C10:store", "run %d: nested store path %v, flat %v", r, storePath(rn.Store), storePath(rf.Store))
 		}
 		// (which error value comes back is C04's clause; C10 compares outcome with the flat machine)
-		// the reference interpreter must agree as well
-		if !sameShape(tn, mr.Trace) {
-			return bad("C10:model", "run %d: nested ran %v, reference interpreter %v", r, sn, modelStrings(mr.Trace))
-		}
+		// (The reference interpreter is used for classification only: it also encodes C01/C02's
+		// per-node rules, and code that breaks only those behaves the same nested and flat.)
 		if depth >= 2 && mr.InnerBranch > 0 {
 			nontrivial = true
 			classes["parent-branches-on-inner-action"] = true
